@@ -54,6 +54,12 @@ MaxI(a, b) == IF a > b THEN a ELSE b
 ClampI(v, lo, hi) == MaxI(lo, MinI(v, hi))
 
 (* i-th numeric parameter; omitted (absent or -1) or zero means def.        *)
+(* A parameter is a number however many digits it is written with: the      *)
+(* control functions compare it with positions and sizes of the screen, so  *)
+(* every value beyond them acts alike (xterm saturates at 65535, a VT at    *)
+(* 9999 or 16383).  Traces carry HugeParam for values of seven digits and   *)
+(* more (TLC integers have 32 bits).                                        *)
+HugeParam == 1073741824
 P(ps, i, def) == IF i > Len(ps) THEN def ELSE IF ps[i] <= 0 THEN def ELSE ps[i]
 (* selective parameter (ED, EL): omitted means 0                            *)
 PSel(ps) == IF Len(ps) = 0 THEN 0 ELSE IF ps[1] < 0 THEN 0 ELSE ps[1]
@@ -106,8 +112,20 @@ PrintG(s0, g, w) ==
         !.pw = nc > s1.cols,
         !.ser = IF w = 2 THEN @ + 1 ELSE @]
 
-RECURSIVE PrintAll(_, _, _)
-PrintAll(s, gs, i) == IF i > Len(gs) THEN s ELSE PrintAll(PrintG(s, gs[i][1], gs[i][2]), gs, i + 1)
+(* The columns a printed cluster takes.  A character cell of a VT / xterm is  *)
+(* one column wide, a wide glyph takes two of them ("printable text (narrow  *)
+(* and wide)"); nothing on the reference terminal is wider.  The measured     *)
+(* width of a cluster is a logged Unicode fact.  Some width tables give a few *)
+(* characters (U+2E3A, U+2E3B) three or four columns where xterm's wcwidth     *)
+(* gives them one: which of the two glyph sizes the reference terminal shows  *)
+(* for such a cluster is a matter of its width table, so both are accepted -  *)
+(* a cell of three or more columns is not.                                    *)
+GlyphWidths(w) == IF w > 2 THEN {1, 2} ELSE {w}
+PrintGs(s, g, w) == {PrintG(s, g, v) : v \in GlyphWidths(w)}
+
+RECURSIVE PrintAll(_, _, _)      \* S = set of states; one state unless a cluster is measured wider than 2
+PrintAll(S, gs, i) == IF i > Len(gs) THEN S
+                      ELSE PrintAll(UNION {PrintGs(t, gs[i][1], gs[i][2]) : t \in S}, gs, i + 1)
 
 (* Erase the cells a..b of line y. *)
 EraseIn(s, y, a, b) ==
@@ -234,6 +252,7 @@ Kind(op) ==
 (* and whether the pending-wrap flag is left open (pwf).                    *)
 Out(s2, pwf) == [s |-> s2, cs |-> {s2.c}, pwf |-> pwf]
 One(s2)      == {Out(s2, FALSE)}
+Each(S)      == {Out(s2, FALSE) : s2 \in S}
 OneB(s, s2)  == {Out(s2, s.pw)}                  \* class B: pw open iff it was set
 (* IL and DL: the VT510 manual resets the cursor to the first column,       *)
 (* xterm leaves the column alone; both are accepted when the function acts. *)
@@ -247,8 +266,8 @@ Outcomes(s, e) ==
       q  == [s EXCEPT !.pw = FALSE]      \* class C is only prescribed when no wrap is pending
   IN
   CASE op = "NOP"   -> OneB(s, s)
-    [] op = "PRINT" -> One(PrintG(s, e.g, e.w))
-    [] op = "PRINTS" -> One(PrintAll(s, e.gs, 1))
+    [] op = "PRINT" -> Each(PrintGs(s, e.g, e.w))
+    [] op = "PRINTS" -> Each(PrintAll({s}, e.gs, 1))
     [] op = "CR"    -> One([s EXCEPT !.c = 1, !.pw = FALSE])
     [] op \in {"CUP", "HVP"} -> One(CUP(s, P(e.ps, 1, 1), P(e.ps, 2, 1)))
     [] op \in {"CHA", "HPA"} -> One(CUP(s, s.r, n))
@@ -306,5 +325,8 @@ WideIntactRow(row, C) ==
     /\ row[x].k = "c" => (x > 1 /\ row[x - 1].k = "g" /\ row[x - 1].w = 2 /\ row[x - 1].id = row[x].id)
 WideIntact(s) == \A y \in 1..s.rows : WideIntactRow(s.grid[y], s.cols) /\ WideIntactRow(s.other[y], s.cols)
 SavedIn(s)   == \A i \in 1..2 : s.saved[i].r \in 1..s.rows /\ s.saved[i].c \in 1..s.cols
-WellFormedVT(s) == CursorIn(s) /\ MarginsOK(s) /\ PwAtEdge(s) /\ Shape(s) /\ WideIntact(s) /\ SavedIn(s)
+CellWidths(s) == \A y \in 1..s.rows : \A x \in 1..s.cols :
+                    /\ s.grid[y][x].k = "g" => s.grid[y][x].w \in {1, 2}
+                    /\ s.other[y][x].k = "g" => s.other[y][x].w \in {1, 2}
+WellFormedVT(s) == CursorIn(s) /\ MarginsOK(s) /\ PwAtEdge(s) /\ Shape(s) /\ WideIntact(s) /\ SavedIn(s) /\ CellWidths(s)
 =============================================================================
